@@ -310,6 +310,13 @@ class ParametriseTransformation(Transformation):
                     for dummy, arg in zip(call.routine.arguments, call.arguments):
                         if arg in vars2p:
                             successor_dic2p[str(dummy)] = dic2p[arg.name]
+                    # a callee can only be specialised for one value per dummy
+                    previous = successor_map[str(call.name)].trafo_data.get(self._key) or {}
+                    conflicts = [k for k, v in successor_dic2p.items() if k in previous and previous[k] != v]
+                    if conflicts:
+                        raise RuntimeError(
+                            f'[Loki::ParametriseTransformation] {call.name} is called with different parametrised '
+                            f'values for {", ".join(conflicts)}')
                     successor_map[str(call.name)].trafo_data[self._key] = successor_dic2p
                     arguments = tuple(arg for arg in call.arguments if arg not in vars2p)
                     call_map[call] = call.clone(arguments=arguments)
